@@ -280,7 +280,23 @@ def run(prog, rep):
     else:
         msg = "platform_key has %d writer(s): %s" % (len(writers), sorted(set(f.name for f, n in writers)))
     rep.ob("C06.4", nw, "key", okk, msg, nw.loc[0])
-    rep.floor("C06.4", 1)
+    # the key is a function of the name alone: two threads opening different names at the same moment must not meet in shared
+    # state (one hash context behind a static pointer would be fed both names and hand each thread a digest of neither, so "one
+    # counter per name" and "other names unaffected" fall together).  No function in the derivation's closure in pipc.c refers to
+    # a variable with static storage
+    pi = prog.unit("pipc.c")
+    todo, clo = ["p_ipc_get_platform_key"], []
+    while todo:
+        fnm = todo.pop()
+        if fnm in clo or fnm not in pi.functions:
+            continue
+        clo.append(fnm)
+        todo.extend(c.get("callee") for (b, i, c) in pi.functions[fnm].calls() if c.get("callee"))
+    stat = [(fnm, n) for fnm in clo for (b, i, n) in pi.functions[fnm].nodes() if n["k"] == "ref" and n.get("decl") in ("staticlocal", "global")]
+    rep.ob("C06.4", pi.functions["p_ipc_get_platform_key"], "key:pure", not stat, "the key derivation (%s) keeps no state between calls: no static or global variable is referred to" % ", ".join(clo) if not stat else
+           "line %d: %s uses the %s variable `%s` while deriving a key: concurrent opens of different names share it, and each can come back with a key computed from the other's name" % (
+               line(stat[0][1]), stat[0][0], "static local" if stat[0][1].get("decl") == "staticlocal" else "global", stat[0][1]["name"]), stat[0][1] if stat else pi.functions["p_ipc_get_platform_key"].loc[0])
+    rep.floor("C06.4", 2)
     sysv(prog, rep)
 
 
@@ -434,6 +450,8 @@ def sysv(prog, rep):
 RENAME_LOCALS = ['src/psemaphore-posix.c']
 
 SELFTEST = [
+    dict(id="platform-key-static-context", file="src/pipc.c", expect="C06.4",
+         old="\tPCryptoHash\t*sha1;\n\tpchar\t\t*hash_str;", new="\tstatic PCryptoHash\t*sha1;\n\tpchar\t\t*hash_str;"),
     dict(id="sysv-release-without-undo", file="src/psemaphore-sysv.c", expect="C06.5",
          old="struct sembuf sem_unlock = {0, 1, SEM_UNDO};", new="struct sembuf sem_unlock = {0, 1, 0};"),
     dict(id="sysv-both-without-undo-neutral", expect=None, edits=[
